@@ -59,6 +59,7 @@ type run struct {
 	opsF       *os.File
 	implF      *os.File
 	nOps       int
+	lastOp     string
 	violations []violation
 	hist       map[string]int
 	distinct   map[string]struct{}
@@ -97,6 +98,7 @@ func (r *run) emit(op, obs string) {
 	r.impl.WriteString(obs)
 	r.impl.WriteByte('\n')
 	r.nOps++
+	r.lastOp = op
 }
 
 func (r *run) count(kind string) { r.hist[kind]++ }
